@@ -103,6 +103,12 @@ def mutants(args):
                 cl = re.findall(r"^violation of clause (\S+) \((\d+) runs\)", rc.stdout, re.M)
                 entry["checks"][prop] = {"exit": rc.returncode, "violations": len(vio), "clauses": {c: int(n) for c, n in cl}, "wall_s": round(time.time() - t1, 1)}
                 ok = rc.returncode == 1 and vio
+                if ok and not cl:
+                    # caught by a stored regression replay before the search started: judge the search alone too
+                    rc2 = subprocess.run(cmd + ["--no-regression"], capture_output=True, text=True, env={**os.environ, "VERIF_REPO": copy, "VERIF_REPLAY_DIR": rdir}, timeout=3600)
+                    cl2 = re.findall(r"^violation of clause (\S+) \((\d+) runs\)", rc2.stdout, re.M)
+                    entry["checks"][prop]["caught_by_regression_replay"] = True
+                    entry["checks"][prop]["search_alone"] = {"exit": rc2.returncode, "clauses": {c: int(n) for c, n in cl2}}
                 if not ok:
                     missed += 1
                     entry["checks"][prop]["tail"] = (rc.stdout[-600:] + rc.stderr[-300:])
